@@ -400,6 +400,67 @@ theorem get_channel_single (v : Vol) (w : VStep) (a k : Nat) (e0 : Nat × List N
       ∃ x, e0.2[k]? = some x ∧ w.1.chans = [(e0.1, [x])]) :=
   getChannel1 keep hs hc h
 
+/-! ## the original object is unchanged (allocation kinds regenerated from source, T9f / T9g)
+
+Not provable from an allocate-only store model (there it would hold by definition).  Instead the translator lists, for
+the operation methods of `volume.py` and the affine helpers of `spatial.py` as they are *now*: how the array / affine of
+the result is produced, every in-place store with the kind of the array written, every call carrying an in-place flag.
+The theorems below are `decide`d on those regenerated tables; the store lemma turns "fresh" into independence. -/
+
+/-- **copy() allocates**: the array of the copy is produced by an expression that always allocates (`.copy()`), not by
+a view and not by a numpy function that may return its argument (`np.ascontiguousarray`, `np.asarray`, …). -/
+theorem copy_allocates_fresh : arrayAllocOf "Volume.copy" = some .fresh := by decide
+
+/-- The padding operations allocate as well (`np.pad` / a new `np.zeros` filled channel by channel). -/
+theorem padding_allocates_fresh : arrayAllocOf "Volume.pad" = some .fresh := by decide
+
+/-- For every operation the origin of the result's array is determined by the source: a fresh allocation, a view of the
+object's own array (indexing, spatial / channel permutation, channel selection: numpy view semantics, the result
+shares the buffer), or the caller's array (`with_array`) — never "numpy decides at run time", never unrecognised. -/
+theorem result_array_kinds_determined :
+    volumeArrayAlloc.all (fun e => Alloc.parse e.2 == .fresh || Alloc.parse e.2 == .view || Alloc.parse e.2 == .given) = true ∧
+    (volumeArrayAlloc.map (·.1)) = ["Volume.copy", "Volume.with_array", "Volume.__getitem__", "Volume.permute_spatial_axes",
+      "Volume.permute_channel_axes_by_index", "Volume.get_channel", "Volume.pad"] := by decide
+
+/-- The affine of a result never aliases the input's: every constructor call hands over a fresh matrix, the `affine`
+property hands out a copy, and the affine helpers return fresh matrices (the constructor copies once more). -/
+theorem result_affine_is_fresh :
+    volumeAffineAlloc.all (fun e => e.2 == "fresh") = true ∧ volumeAffineProperty = "fresh" ∧
+    affineHelperReturns.all (fun e => e.2 == "fresh") = true := by decide
+
+/-- **The operations never write into their input**: every in-place store of the operation methods, of
+`_prepare_getitem_index` / `_prepare_pad_width` / `_permute_affine` / the constructors and of the affine helpers goes
+into an array (or container) the method allocated itself, and no call carries an in-place flag (`out=`,
+`overwrite_input=True`, `.sort()`, `np.copyto`, …). -/
+theorem ops_never_write_input :
+    (volumeArrayWrites ++ affineHelperWrites).all (fun w => w.2.2 == "fresh") = true ∧
+    volumeInplaceCalls = [] ∧ affineHelperInplaceCalls = [] := by decide
+
+/-- **A freshly allocated result is independent of the original**: after an operation whose result array is `fresh`,
+an in-place edit of any element of the result leaves every buffer that existed before — the original's among them —
+exactly as it was.  With `copy_allocates_fresh` / `padding_allocates_fresh`: working in place on a copy or a padded
+volume never changes the original. -/
+theorem fresh_result_is_independent (s : Store) (own given : Nat) (contents : List Rat) (r : Nat)
+    (hr : resultBuffer .fresh s own given = some r) (k : Nat) (x : Rat) (b : Nat) (hb : b < s.length) :
+    (writeBuf (storeAfter .fresh s contents) r k x)[b]? = s[b]? :=
+  fresh_independent s own given contents r hr k x b hb
+
+theorem copy_result_is_independent (a : Alloc) (ha : arrayAllocOf "Volume.copy" = some a) (s : Store) (own given : Nat)
+    (contents : List Rat) : ∃ r, resultBuffer a s own given = some r ∧
+      ∀ k x b, b < s.length → (writeBuf (storeAfter a s contents) r k x)[b]? = s[b]? := by
+  have : a = .fresh := by
+    have h := copy_allocates_fresh
+    rw [ha] at h
+    exact Option.some.inj h
+  subst this
+  exact ⟨s.length, rfl, fun k x b hb => fresh_independent s own given contents s.length rfl k x b hb⟩
+
+/-- A view lives in the input's buffer: editing the result of indexing / permuting / channel selection in place edits
+the original (numpy view semantics; the library documents indexing as "largely similar to any NumPy array"). -/
+theorem view_result_aliases (s : Store) (own given : Nat) :
+    resultBuffer .view s own given = some own ∧ storeAfter .view s [] = s :=
+  view_aliases s own given
+
 /-! ## non-vacuity -/
 
 /-- a left-handed, rotated (axis-swapping), anisotropic geometry of shape 4 × 3 × 5 -/
